@@ -50,6 +50,9 @@ type Modules struct {
 	Path []string
 	// pathMap is used to prevent adding dups in Path.
 	pathMap map[string]bool
+	// unrevisioned holds the modules and submodules that have no revision
+	// statement, keyed by kind and name.
+	unrevisioned map[string]*Module
 }
 
 // NewModules returns a newly created and initialized Modules.
@@ -172,6 +175,24 @@ func (ms *Modules) add(n Node) error {
 	fullName := mod.FullName()
 	mod.Modules = ms
 
+	if fullName == name {
+		// A module without revision files itself under the bare name,
+		// which is also the alias for the latest revision of the dated
+		// modules of that name. Keep track of it separately, so that
+		// what is a duplicate does not depend on the load order.
+		key := kind + ":" + name
+		if o := ms.unrevisioned[key]; o != nil {
+			return fmt.Errorf("duplicate %s %s at %s and %s", kind, fullName, Source(o), Source(n))
+		}
+		if ms.unrevisioned == nil {
+			ms.unrevisioned = map[string]*Module{}
+		}
+		ms.unrevisioned[key] = mod
+		if m[name] == nil {
+			m[name] = mod
+		}
+		return nil
+	}
 	if o := m[fullName]; o != nil {
 		return fmt.Errorf("duplicate %s %s at %s and %s", kind, fullName, Source(o), Source(n))
 	}
